@@ -11,6 +11,7 @@ A case is a dict:
 """
 import os, sys, subprocess, time, enum, hashlib, zlib, random, json, traceback
 from concurrent.futures import ProcessPoolExecutor
+from concurrent.futures.process import BrokenProcessPool
 
 HERE = os.path.dirname(os.path.abspath(__file__))
 ROOT = os.path.dirname(HERE)
@@ -310,7 +311,16 @@ def run_cases(cases, strict_err=True, pool=None):
     if own and n > 400:
         pool = ProcessPoolExecutor(max_workers=WORKERS)
     if pool is not None:
-        evald = [x for ch in pool.map(_chunk_eval, chunks) for x in ch]
+        try:
+            evald = [x for ch in pool.map(_chunk_eval, chunks) for x in ch]
+        except BrokenProcessPool:
+            # a worker was killed from outside (memory pressure when many checks share the machine): once more with a quarter of the workers;
+            # a second failure is reported as it is
+            if not own:
+                raise
+            pool.shutdown(wait=False)
+            pool = ProcessPoolExecutor(max_workers=max(2, WORKERS // 4))
+            evald = [x for ch in pool.map(_chunk_eval, chunks) for x in ch]
     else:
         evald = [x for ch in chunks for x in _chunk_eval(ch)]
     if own and pool is not None:
